@@ -37,6 +37,9 @@ type Property struct {
 	Rule        string // what makes a case distinct / non-trivial
 	Assumptions []string
 	Layers      func(tier string) []Layer
+	// Stats, when set, returns additional coverage numbers computed by the property itself
+	// (e.g. the number of distinct states of an explicit-state search); "states" overrides the default.
+	Stats func(tier string) map[string]interface{}
 }
 
 var registry = map[string]*Property{}
@@ -245,16 +248,16 @@ func fnvStr(h uint64, s string) uint64 {
 // ---------------------------------------------------------------------------
 
 type WorkerReport struct {
-	Worker     int              `json:"worker"`
-	Layers     []LayerStat      `json:"layers"`
-	Fails      []Failure        `json:"fails"`
-	TotalFails int64            `json:"total_fails"`
-	Samples    []string         `json:"samples"`
-	Outcomes   int              `json:"outcomes"`
-	OutFull    bool             `json:"outcomes_saturated"`
-	Extra      map[string]int64 `json:"extra"`
+	Worker     int                   `json:"worker"`
+	Layers     []LayerStat           `json:"layers"`
+	Fails      []Failure             `json:"fails"`
+	TotalFails int64                 `json:"total_fails"`
+	Samples    []string              `json:"samples"`
+	Outcomes   int                   `json:"outcomes"`
+	OutFull    bool                  `json:"outcomes_saturated"`
+	Extra      map[string]int64      `json:"extra"`
 	Known      map[string]*KnownStat `json:"known"`
-	Crash      string           `json:"crash,omitempty"`
+	Crash      string                `json:"crash,omitempty"`
 }
 
 func tierBudget(tier string) time.Duration {
@@ -340,9 +343,9 @@ func trimStack(b []byte) string {
 // ---------------------------------------------------------------------------
 
 type knownFinding struct {
-	Prop  string
-	ID    string
-	What  string
+	Prop    string
+	ID      string
+	What    string
 	Keys    map[string]bool
 	Classes map[string]bool
 	seen    int64
@@ -363,8 +366,9 @@ func verifDir() string {
 }
 
 // loadKnownFindings parses KNOWN_FINDINGS.txt. Lines:
-//   finding: property=Cnn id=<slug> keys=<k1>|<k2>|... what=<free text>
-//   fixed: property=Cnn <commit> <what failed>        (suppresses nothing)
+//
+//	finding: property=Cnn id=<slug> keys=<k1>|<k2>|... what=<free text>
+//	fixed: property=Cnn <commit> <what failed>        (suppresses nothing)
 func loadKnownFindings(prop string) []*knownFinding {
 	var out []*knownFinding
 	b, err := os.ReadFile(filepath.Join(verifDir(), "KNOWN_FINDINGS.txt"))
@@ -646,6 +650,11 @@ func runParent(p *Property, tier string) int {
 		"known_finding_classes":         known,
 		"workers":                       nw,
 		"explanation":                   "states = distinct enumerated cases (operation + operands + receiver state; the enumerators de-duplicate by construction); transitions = executions of the real operation, one per state; every transition is compared with the reference model, hence traces_validated_against_impl = transitions.",
+	}
+	if p.Stats != nil {
+		for k, v := range p.Stats(tier) {
+			cov[k] = v
+		}
 	}
 	if xp := os.Getenv("VERIF_EXTRA_EVIDENCE"); xp != "" {
 		if xb, err := os.ReadFile(xp); err == nil {
